@@ -18,7 +18,7 @@ def progOf (op : String) : Option Prog :=
   -- program contains every failpoint of both
   | "insert_chk2_p0" | "insert_chk2_p1" | "insert_chk3_p0" | "insert_chk3_p1" | "insert_chk3_p2" => some dtInsertGuarded
   | "insert_bare" => some dtInsertBare
-  | "remove" => some dtRemoveGuarded
+  | "remove" | "remove_bare" => some dtRemoveGuarded
   | "flip_k2" | "flip_k3" | "flip_k2inv" | "flip_k1_insert" | "flip_k1_remove" => some editFlip
   -- stale-handle flips are preceded by a preparatory insertion in the harness: union of both programs
   | "flip_k1_insert_stale" | "flip_k2_stale" => some (dtInsertGuarded ;; editFlip)
